@@ -461,8 +461,9 @@ def _run_sphere(c):
     """real spheregroup with the cell lists captured; closeness matrix as the code computes it"""
     from unittest import mock
     from pydl.pydlutils import spheregroup as sg
-    ra = np.array(c['ra'], dtype='d')
-    dec = np.array(c['dec'], dtype='d')
+    # whole-degree positions may arrive as integer arrays (a lattice, a catalogue of field centres): the same positions
+    ra = np.array(c['ra'], dtype=c.get('cdtype', 'd'))
+    dec = np.array(c['dec'], dtype=c.get('cdtype', 'd'))
     ll = c['ll']
     cs = c['chunksize']
     n = len(ra)
@@ -740,6 +741,16 @@ def _sphere_cases(ctx, count):
             continue
         cs, csk = _bound_cells(ra, dec, ll, cs, csk)
         cases.append({'stream': 'sphere', 'kind': kind, 'cs': csk, 'll': ll, 'chunksize': cs, 'ra': ra, 'dec': dec})
+    for _ in range(max(3, count // 40)):
+        n = rng.randrange(4, 40)
+        a0, d0 = rng.randrange(0, 340), rng.randrange(-60, 50)
+        pts = list({(a0 + rng.randrange(0, 14), d0 + rng.randrange(0, 10)) for _ in range(n)})
+        rng.shuffle(pts)
+        ll = rng.choice([1.5, 2.5, 1.2, 3.3])
+        ra, dec = [float(p[0] % 360) for p in pts], [float(p[1]) for p in pts]
+        if len(ra) >= 2 and not _undecided(np.array(ra), np.array(dec), ll):
+            cases.append({'stream': 'sphere', 'kind': 'intgrid', 'cs': 'none', 'll': ll, 'chunksize': None, 'ra': ra, 'dec': dec,
+                          'cdtype': rng.choice(['i8', 'i4', 'i8', 'd'])})
     cases.append({'stream': 'sphere', 'kind': 'one-point', 'cs': 'none', 'll': 1.0, 'chunksize': None, 'ra': [10.0], 'dec': [5.0]})
     return cases
 
